@@ -30,6 +30,7 @@ from ..Models.Beam._beam import BeamStructure, _Beam, Isotropic
 
 # simu
 from ._simu import _Simu, SolverType
+from .Solvers import AlgoType
 from ._problem_type import ProblemType
 
 
@@ -495,6 +496,10 @@ class Beam(_Simu):
             iter = {}
 
         iter["displacement"] = self.displacement
+        if self.algo in AlgoType.Get_Hyperbolic_Types():
+            # a dynamic step starts from (u, v, a): the three are needed to resume from this iteration
+            iter["speed"] = self._Get_v_n(self.problemType)
+            iter["accel"] = self._Get_a_n(self.problemType)
 
         return super().Save_Iter(iter)
 
@@ -504,7 +509,13 @@ class Beam(_Simu):
         if results is None:
             return
 
-        self._Set_solutions(self.problemType, results["displacement"])
+        u = results["displacement"]
+        if "speed" in results and "accel" in results:
+            self._Set_solutions(
+                self.problemType, u, results["speed"], results["accel"]
+            )
+        else:
+            self._Set_solutions(self.problemType, u)
 
         return results
 
